@@ -118,7 +118,7 @@ Definition law_entry (law : st -> ev -> st -> outcome -> bool) (toks : list Z) :
 
 Definition entry (sel : Z) (toks : list Z) : list Z :=
   match sel with
-  | 1 | 2 | 3 => match run_dec dInput toks with
+  | 1 | 2 | 3 | 4 => match run_dec dInput toks with
          | Some (s, h) => trace s h 1
          | None => bad_input end
   | 101 => law_entry (fun s e s' _ => law_only_by_request s e s') toks
@@ -140,5 +140,8 @@ Definition entry (sel : Z) (toks : list Z) : list Z :=
   (* laws against the PodGroups that really exist (selector 3: PodGroup events before the queue is listed) *)
   | 131 => law_entry (fun s e s' _ => law_closed_only_when_really_empty s e s') toks
   | 132 => law_entry law_close_with_real_pgs toks
+  (* quiescent end states (selector 4) *)
+  | 141 => law_entry (fun _ _ s' _ => law_no_stuck_child s') toks
+  | 142 => law_entry (fun _ _ s' _ => law_children_follow_closed_parent s') toks
   | _ => bad_input
   end.
